@@ -179,7 +179,7 @@ def stored_in(lv, hp, o):
     return And(hp['alloc'][o], c.cls(o) == c.C['OuterPin'], hp['alloc'][i], c.cls(i) == c.C['Instance'], hp['okeys'][i][q], hp['ovals'][i][q] == o)
 
 
-def opins_deleted(lv, deleted, base, keys_deleted=True):
+def opins_deleted(lv, deleted, base, keys_deleted=True, full=None):
     """the outer pins stored under the (instance, inner pin) pairs `deleted` were taken off their wire (announced) and detached"""
     c = lv.ctx; h = lv.h
     done = lambda o: And(stored_in(lv, base, o), deleted(base['_instance'][o], base['_inner_pin'][o]))
@@ -203,6 +203,13 @@ def opins_deleted(lv, deleted, base, keys_deleted=True):
         ('C19', 'touched', c.forall(['o'], lambda o: h['t:wire'][o] == Or(base['t:wire'][o], wired(o)), lambda o: [h['t:wire'][o], base['t:wire'][o]])),
         ('C19', 'last', c.forall(['o'], lambda o: h['l:wire'][o] == If(wired(o), c.null, base['l:wire'][o]), lambda o: [h['l:wire'][o], base['l:wire'][o]])),
     ]
+    if full is not None:
+        # when none of the pins the loop is going to drop is wired, no wire list is stored to at all (order included)
+        o_ = Const('oq_full', c.Ref)
+        none_wired = ForAll([o_], Implies(And(stored_in(lv, base, o_), full(base['_instance'][o_], base['_inner_pin'][o_])),
+                                           base['_wire'][o_] == c.null), patterns=[base['_wire'][o_]])
+        out.append(('C14', 'nothing-wired-nothing-stored', Implies(none_wired, And(h['_pins'] == base['_pins'], h['t:wire'] == base['t:wire'],
+                                                                                    h['l:wire'] == base['l:wire']))))
     return out
 
 
@@ -285,7 +292,7 @@ def _inv_disc_do(lv):
 @loop_spec('Instance.reference=', 0, 'opins', OPIN_DELETE_MODS)
 def _inv_ref_none(lv):
     self_ = lv.env['self'][1]
-    return opins_deleted(lv, lambda i, q: And(i == self_, lv.seen[q]), lv.hl, keys_deleted=False)
+    return opins_deleted(lv, lambda i, q: And(i == self_, lv.seen[q]), lv.hl, keys_deleted=False, full=lambda i, q: i == self_)
 
 
 @loop_spec('Instance.reference=', 3, 'list', OPIN_CREATE_MODS)
